@@ -23,3 +23,6 @@ prop('C14', ['R-READONLY', 'R-WRITE-API'],
      'mutation of a storage object; storage mutators are computed from the storage class bodies.',
      'no path from any query entry point to a mutation of either store (complete for the statement modulo A1-A2)',
      'nothing beyond A1-A2')
+
+
+prop('C16', ['R-FRESH','R-DIRTY-WRITTEN','R-NULL-HEAD','R-CRAWLED','R-NONE-CHECK','R-TOKEN-PAIR','R-CHUNK-LAST'], 'tmp', 'tmp', 'tmp')
